@@ -9,7 +9,8 @@ pub mod c13;
 pub mod c15;
 pub mod c16;
 pub mod c19;
+pub mod c20;
 
 pub fn all() -> Vec<Property> {
-    vec![c08::property(), c09::property(), c10::property(), c11::property(), c12::property(), c13::property(), c15::property(), c16::property(), c19::property()]
+    vec![c08::property(), c09::property(), c10::property(), c11::property(), c12::property(), c13::property(), c15::property(), c16::property(), c19::property(), c20::property()]
 }
